@@ -80,6 +80,26 @@ class BuildError(Exception):
     pass
 
 
+SDK_INCLUDES = ('api/include', 'sdk/include', 'sdk', 'ext/include', 'exporters/memory/include', 'exporters/ostream/include')
+_SDK_SKIP = {'sdk/src/common/platform/fork_windows.cc'}
+
+
+def sdk_sources(*groups, repo=None):
+    """repo-relative .cc files of sdk/src/<group> (recursively), e.g. sdk_sources('common', 'resource', 'trace', 'version').
+    The set is globbed from the working tree on every run, so added/removed files are followed."""
+    repo = repo or REPO
+    out = []
+    for g in groups:
+        base = os.path.join(repo, 'sdk', 'src', g)
+        for dp, _, fns in os.walk(base):
+            for fn in sorted(fns):
+                if fn.endswith('.cc'):
+                    rel = os.path.relpath(os.path.join(dp, fn), repo)
+                    if rel not in _SDK_SKIP:
+                        out.append(rel)
+    return sorted(out)
+
+
 def _run(cmd, **kw):
     return subprocess.run(cmd, stdout=subprocess.PIPE, stderr=subprocess.PIPE, text=True, **kw)
 
